@@ -5,7 +5,7 @@ import json
 import os
 import shutil
 
-from .common import (BUILD, ROOT, Result, driver_path, harness_path, sh, standard_build)
+from .common import (BUILD, ROOT, Lock, Result, driver_path, harness_path, sh, stage_cargo, stage_coq, stage_extract, standard_build)
 
 DRIVER = driver_path("c09")
 HARNESS = harness_path("c09")
@@ -221,6 +221,14 @@ def run(tier):
 def replay(path):
     r = json.load(open(path, encoding="utf-8"))
     hist = r.get("history")
+    # replays run against /repo's current working tree too
+    with Lock():
+        stage_coq(MODEL_DEPS)
+        ok1, out1, _ = stage_extract("c09")
+        ok2, out2, _ = stage_cargo("c09")
+    if not (ok1 and ok2):
+        print((out1 + out2)[-3000:])
+        return 2
     if hist:
         work = os.path.join(BUILD, "work", "%s-replay" % PROP)
         os.makedirs(work, exist_ok=True)
